@@ -176,6 +176,41 @@ def from_twodomains(k):
     return [ev]
 
 
+GENNAME_PAIRS = [("float", 1.5, 2.5), ("float", 1e+22, 1e-22), ("float", 0.5, 0.25), ("str", "a-b", "a_b"), ("str", "v1.2", "v3.2"), ("str", "x y", "x_y"),
+                 ("int", 1, -1), ("int", 12, 21), ("str", "rev2", "rev3"), ("two", 1.5, 2.5)]
+
+
+def from_gennames(k):
+    """one design holding two generated modules whose parameter values differ only in characters netlist formats do not have (a dot, a sign, a dash):
+    the package names them apart, and the netlisters must accept it"""
+    from ..hd import h
+    kind, v1, v2 = GENNAME_PAIRS[k]
+    T = {"float": float, "str": str, "int": int, "two": float}[kind]
+    P = h.paramclass(type("GP", (), {"x": h.Param(dtype=T, desc="x")}))
+
+    def mk(fname, width):
+        def body(params):
+            m = h.Module()
+            m.a = h.Port(width=width)
+            return m
+        body.__name__ = fname
+        body.__annotations__ = {"params": P, "return": h.Module}
+        return h.generator(body)
+    GA = mk("Cell", 1)
+    GB = mk("Other", 1) if kind == "two" else GA
+    m = h.Module(name=f"GenNames{k}")
+    m.s = h.Signal()
+    m.i0 = GA(x=v1)(a=m.s)
+    m.i1 = GB(x=v2)(a=m.s)
+    try:
+        pkg = h.to_proto(m)
+    except Exception:
+        return []
+    ev = {"src": f"gennames:{kind}:{v1!r}:{v2!r}", "P": proj_package(pkg, None)}
+    ev.update(check_pkg(h, pkg))
+    return [ev]
+
+
 def from_multitop(k):
     """several tops given as a list, one of them also instantiated (deep) below another; and exports under an explicit domain of designs that
     hold an ExternalModule declared without a domain"""
@@ -256,6 +291,9 @@ def run(tier, seed, replay_file=None):
     for out in pool_map(from_twodomains, [0, 1, 2, 3]):
         evs += out
         o.cover["twodomains"] = o.cover.get("twodomains", 0) + len(out)
+    for out in pool_map(from_gennames, list(range(len(GENNAME_PAIRS)))):
+        evs += out
+        o.cover["gennames"] = o.cover.get("gennames", 0) + len(out)
     # every package the repository's own tests export (PDK-compiled designs included)
     from .. import suite
     sjobs = []
@@ -301,9 +339,9 @@ def run(tier, seed, replay_file=None):
         ok, clause = verdicts[i]
         if not ok:
             o.violations.append(Violation(clause=clause.split(":")[0], case={"source": e["src"], "P": e["P"]},
-                                          features=["src_" + src, clause] + (["source:" + e["src"]] if src == "suite" else []), detail=e.get("why")))
+                                          features=["src_" + src, clause] + (["source:" + e["src"]] if src in ("suite", "gennames") else []), detail=e.get("why")))
     o.distinct_nontrivial = len(seen)
-    o.required_cover = ["example_ro", "example_rdac", "example_encoder", "example_diff_ota", "example_idac", "example_bundles", "builtin", "src_U_sig", "src_U_bundle", "rebinding", "retry_after_failure_designs", "suite_packages", "multitop"]
+    o.required_cover = ["example_ro", "example_rdac", "example_encoder", "example_diff_ota", "example_idac", "example_bundles", "builtin", "src_U_sig", "src_U_bundle", "rebinding", "retry_after_failure_designs", "suite_packages", "multitop", "gennames"]
     for i in rnd.sample(range(len(evs)), 2):
         o.samples.append({"source": evs[i]["src"], "modules": evs[i]["P"]["order"], "verdict": verdicts[i]})
     return o
